@@ -270,3 +270,94 @@ def finalisation(ret, stop, objs):
                 tgt = st.targets[0].id
             facts.setdefault(c.args[0].id, {}).setdefault("max_step", []).append((i, tgt))
     return facts, seq
+
+
+def check_relgap(rule, w, mn, fnn):
+    """The relative gap is gap / -pcost when pcost < 0, gap / dcost when dcost > 0, undefined
+    otherwise (doc: 'relative gap').  Each branch that divides must divide by the quantity its
+    guard made positive - the denominator is tied to the guard, not to a constant table."""
+    m = w.mods[mn]
+    fn = w.func(mn, fnn)
+    n = 0
+    for st in pf._scope_nodes(fn):
+        if not isinstance(st, ast.If):
+            continue
+        chain = []
+        cur = st
+        while isinstance(cur, ast.If):
+            chain.append(cur)
+            cur = cur.orelse[0] if len(cur.orelse) == 1 and isinstance(cur.orelse[0], ast.If) else None
+        if getattr(st, "_parent", None) is not None and isinstance(st._parent, ast.If) and st in st._parent.orelse:
+            continue       # inner link of a chain already visited from its head
+        for k, br in enumerate(chain):
+            for a in br.body:
+                if not (isinstance(a, ast.Assign) and len(a.targets) == 1 and isinstance(a.targets[0], ast.Name)
+                        and a.targets[0].id == "relgap" and isinstance(a.value, ast.BinOp) and isinstance(a.value.op, ast.Div)):
+                    continue
+                n += 1
+                key = "%s:relgap branch `%s`" % (fnn, pf.norm_expr(br.test)[:40])
+                where = m.where(a, fn)
+                t = br.test
+                num, den = a.value.left, a.value.right
+                ok = isinstance(t, ast.Compare) and len(t.ops) == 1 and isinstance(t.left, ast.Name) \
+                    and isinstance(t.comparators[0], ast.Constant) and t.comparators[0].value in (0, 0.0)
+                if not ok:
+                    rule.undecided(key, where, "guard of a relgap branch is not `v < 0.0` / `v > 0.0`")
+                    continue
+                v = t.left.id
+                if isinstance(t.ops[0], ast.Lt):
+                    want = "(-%s)" % v
+                elif isinstance(t.ops[0], ast.Gt):
+                    want = v
+                else:
+                    rule.undecided(key, where, "guard operator not < or >")
+                    continue
+                got = pf.norm_expr(den)
+                if got.replace(" ", "") not in (want, want.strip("()")):
+                    rule.violation(key, where, "the branch guarded by `%s` divides the gap by `%s`: the relative gap is defined with the quantity "
+                                   "the guard made positive" % (pf.norm_expr(t), got), "gap / %s" % want, pf.norm_expr(a.value))
+                elif pf.norm_expr(num) != "gap":
+                    rule.violation(key, where, "the relative gap is not computed from `gap`", "gap / %s" % want, pf.norm_expr(a.value))
+                elif (k == 0 and v != "pcost") or (k == 1 and v != "dcost"):
+                    rule.violation(key, where, "documented order: gap / -pcost if pcost < 0, else gap / dcost if dcost > 0", "pcost then dcost", v)
+                else:
+                    rule.ok(key, where, pf.norm_expr(a.value))
+    return n
+
+
+def check_residual_normalisers(rule, w, mn, fnn, targets=("pres", "dres", "pinfres", "dinfres")):
+    """Relative residuals: inside the value of pres/dres/pinfres/dinfres every residual norm
+    res{x,y,z} / hres{x,y,z} is divided by its own reference res{x,y,z}0 (the norm of the
+    corresponding right-hand side fixed before the loop) - not by another block's, and not
+    pooled under one common normaliser."""
+    import re as _re
+    m = w.mods[mn]
+    fn = w.func(mn, fnn)
+    main = None
+    try:
+        from . import solvers_common as sc
+        main = sc.main_loop(fn)
+    except Exception:
+        main = None
+    n = 0
+    for a in pf._scope_nodes(fn):
+        if not (isinstance(a, ast.Assign) and len(a.targets) == 1 and isinstance(a.targets[0], ast.Name) and a.targets[0].id in targets):
+            continue
+        if main is not None and not (main.lineno <= a.lineno <= getattr(main, "end_lineno", 10 ** 9)):
+            continue
+        for x in ast.walk(a.value):
+            if isinstance(x, ast.Name) and _re.fullmatch(r"h?res[xyz]", x.id):
+                n += 1
+                blk = x.id[-1]
+                par = getattr(x, "_parent", None)
+                key = "%s:%s uses %s" % (fnn, a.targets[0].id, x.id)
+                where = m.where(a, fn)
+                if isinstance(par, ast.BinOp) and isinstance(par.op, ast.Div) and par.left is x and isinstance(par.right, ast.Name) \
+                        and par.right.id == "res%s0" % blk:
+                    rule.ok(key, where, "%s / res%s0" % (x.id, blk))
+                else:
+                    rule.violation(key, where,
+                                   "`%s` enters %s without being divided by its own reference `res%s0`: the reported relative residual "
+                                   "is not the documented one (`%s`)" % (x.id, a.targets[0].id, blk, pf.norm_expr(a.value)[:80]),
+                                   "%s / res%s0" % (x.id, blk), pf.norm_expr(a.value)[:80])
+    return n
